@@ -102,8 +102,7 @@ unit("parse.valid_utf8.exact", "janet_valid_utf8 agrees with an independent refe
 unit("parse.escape_roundtrip", "for every byte: what the %j string printer (janet_escape_string_impl) emits for it is accepted by the real string-literal consumers "
      "(stringchar/escape1/escapeh via janet_parser_consume) and denotes exactly that byte, leaving the parser inside the literal",
      "h_escape_roundtrip", ["parse_escape_rt.c"], cls="full-domain", mode="plain", src=["pp.c", "parse.c"], link=["util.c"], link_keep={"util.c": ["janet_cstrcmp"]},
-     replace_calls=["janet_buffer_push_u8:push_u8_stub", "janet_buffer_push_bytes:push_bytes_stub"], unwind=8,
-     remove_bodies="root|tokenchar|comment|longstring|atsign|stringend|popstate|delim_error|escapeu|write_codepoint",
+     replace_calls=["janet_buffer_push_u8:push_u8_stub", "janet_buffer_push_bytes:push_bytes_stub", "realloc:realloc_stub"], unwind=8, unwindset={"janet_parser_consume.0": 2}, timeout=300,
      functions=["janet_escape_string_impl", "janet_parser_consume", "stringchar", "escape1", "escapeh", "checkescape", "to_hex", "push_buf"],
      assumes=["janet_buffer_push_u8/push_bytes append exactly the given bytes (recording contract; the buffer functions are proved under C04)"],
      mutants=[dict(name="printer-escape-e-as-x", file="pp.c", find='janet_buffer_push_bytes(buffer, (const uint8_t *)"\\\\e", 2);', replace='janet_buffer_push_bytes(buffer, (const uint8_t *)"\\\\q", 2);', expect="C11"),
